@@ -5,17 +5,12 @@ Local Open Scope list_scope. Open Scope Z_scope.
 (* the printed matching is optimal for the first criterion's stages among all feasible matchings, for the next
    criterion among those optimal for the first, and so on through the list, for every correct MILP back end *)
 Theorem C04_lex_optimal : forall M o solve out,
-  wf M = true -> admissible M o = true -> milp_ok M solve -> stages_nonempty M o ->
+  wf M = true -> admissible M o = true -> milp_ok M solve ->
   run M o solve = Ok out -> out_status out = Optimal ->
   LexOpt (Feas (o_pc o) (o_stab o) M) (map (prim_objective_spec M) (all_prims M o))
          (matching_of M (val_fun (out_vals out))).
 Proof. exact run_lex_optimal_all. Qed.
 Print Assumptions C04_lex_optimal.
-
-(* every criterion has a stage whenever the maximum rank is at least 1 *)
-Theorem C04_stages_nonempty : forall M o, admissible M o = true -> 1 <= max_rank M -> stages_nonempty M o.
-Proof. exact admissible_stages_nonempty. Qed.
-Print Assumptions C04_stages_nonempty.
 
 (* the list order IS the position order, whatever the flag order: the parser returns the criteria by position *)
 Theorem C04_order_by_position : forall (n : ns) (twopl stab : bool),
@@ -26,19 +21,21 @@ Print Assumptions C04_order_by_position.
 (* a later criterion never worsens an earlier one: the final matching attains the optimum of the first stage
    over all feasible matchings *)
 Corollary C04_first_never_worsened : forall M o solve out ob rest,
-  wf M = true -> admissible M o = true -> milp_ok M solve -> stages_nonempty M o ->
+  wf M = true -> admissible M o = true -> milp_ok M solve ->
   run M o solve = Ok out -> out_status out = Optimal ->
   map (prim_objective_spec M) (all_prims M o) = ob :: rest ->
   forall m', Feas (o_pc o) (o_stab o) M m' ->
     as_good ob (ob_meas ob (matching_of M (val_fun (out_vals out)))) (ob_meas ob m') = true.
 Proof.
-  intros M o solve out ob rest Hwf Hadm Hok Hne Hrun Hst He.
-  pose proof (run_lex_optimal_all M o solve out Hwf Hadm Hok Hne Hrun Hst) as H. rewrite He in H.
+  intros M o solve out ob rest Hwf Hadm Hok Hrun Hst He.
+  pose proof (run_lex_optimal_all M o solve out Hwf Hadm Hok Hrun Hst) as H. rewrite He in H.
   exact (proj2 (LexOpt_head _ _ _ _ H)).
 Qed.
 Print Assumptions C04_first_never_worsened.
 
 Example C04_example :
   let o := mkOpts false false [(MaxSize, []); (MinCost, [1; 1])] in
-  admissible ex_inst o = true /\ all_prims ex_inst o = [PSize true; PCost 1 1] /\ 1 <= max_rank ex_inst.
-Proof. vm_compute. repeat split; try reflexivity. discriminate. Qed.
+  admissible ex_inst o = true /\ all_prims ex_inst o = [PSize true; PCost 1 1] /\
+  admissible ex_inst (mkOpts false false [(Generous, [7]); (MaxSize, [])]) = true /\
+  all_prims ex_inst (mkOpts false false [(Generous, [7]); (MaxSize, [])]) = [PSize true].
+Proof. vm_compute. repeat split; reflexivity. Qed.
